@@ -5,6 +5,7 @@ import (
 	"io"
 	"mime"
 	"sort"
+	"strconv"
 	"strings"
 	"time"
 	"unicode/utf8"
@@ -211,8 +212,14 @@ func readSection(dec *imapwire.Decoder, section *imap.FetchItemBodySection) erro
 		return nil
 	}
 
-	var dot bool
-	section.Part, dot = readSectionPart(dec)
+	var (
+		dot bool
+		err error
+	)
+	section.Part, dot, err = readSectionPart(dec)
+	if err != nil {
+		return err
+	}
 	if dot || len(section.Part) == 0 {
 		var specifier string
 		if dot {
@@ -253,19 +260,29 @@ func readSection(dec *imapwire.Decoder, section *imap.FetchItemBodySection) erro
 	return nil
 }
 
-func readSectionPart(dec *imapwire.Decoder) (part []int, dot bool) {
+func readSectionPart(dec *imapwire.Decoder) (part []int, dot bool, err error) {
 	for {
 		dot = len(part) > 0
 		if dot && !dec.Special('.') {
-			return part, false
+			return part, false, nil
 		}
 
-		var num uint32
-		if !dec.Number(&num) {
-			return part, dot
+		var s string
+		if !dec.Func(&s, isDigit) {
+			return part, dot, nil
+		}
+		// Decoder.Number consumes the digits of a number which doesn't fit
+		// and then reports that there is no number
+		num, err := strconv.ParseUint(s, 10, 32)
+		if err != nil {
+			return nil, false, newClientBugError("invalid section part number")
 		}
 		part = append(part, int(num))
 	}
+}
+
+func isDigit(ch byte) bool {
+	return ch >= '0' && ch <= '9'
 }
 
 func readHeaderList(dec *imapwire.Decoder) ([]string, error) {
